@@ -163,6 +163,33 @@ Proof.
 Qed.
 
 (* ------------------------------------------------------------------------------------ *)
+(* facts about the state machine that need no assumption on the external functions *)
+Section Plain.
+Variable w : rune -> nat.
+Variable sw : str -> nat.
+Variable mdr : Z -> Z -> Z -> Z.
+
+Lemma show_keeps clamped st now t s e :
+  p_step (fst (show w sw mdr clamped st now t s e)) = p_step st /\
+  p_size (fst (show w sw mdr clamped st now t s e)) = p_size st.
+Proof.
+  unfold show. destruct (throttled st now); [split; reflexivity|]. cbv zeta.
+  destruct (progress_text_gen _ _ _ _ _ _ _ _ _ _ _ _ _ _); cbn [fst set_shown p_step p_size]; split; reflexivity.
+Qed.
+
+Lemma on_step_never_lowers clamped st z now t s e :
+  p_step st <= p_step (fst (apply_op w sw mdr clamped (OpStep z now t s e) st)) /\
+  p_size (fst (apply_op w sw mdr clamped (OpStep z now t s e) st)) = p_size st.
+Proof.
+  cbn [apply_op]. destruct (wrap64 (z + p_pre st) <=? p_step st) eqn:E; [cbn [fst]; split; [lia | reflexivity]|].
+  apply Z.leb_gt in E. destruct (p_pausing st); [cbn [fst set_step p_step p_size]; split; [lia | reflexivity]|].
+  destruct (show_keeps clamped (set_step st (wrap64 (z + p_pre st))) now t s e) as [A B].
+  rewrite A, B. cbn [set_step p_step p_size]. split; [lia | reflexivity].
+Qed.
+
+End Plain.
+
+(* ------------------------------------------------------------------------------------ *)
 (* the layout.  External functions and what is assumed about them:
      w, sw : runewidth.RuneWidth / StringWidth (what the code measures with)
      dw    : the number of columns the terminal advances when the string is printed
@@ -619,24 +646,6 @@ Proof.
 Qed.
 
 (* C20_monotone *)
-Lemma show_keeps clamped st now t s e :
-  p_step (fst (show w sw mdr clamped st now t s e)) = p_step st /\
-  p_size (fst (show w sw mdr clamped st now t s e)) = p_size st.
-Proof.
-  unfold show. destruct (throttled st now); [split; reflexivity|]. cbv zeta.
-  destruct (progress_text_gen _ _ _ _ _ _ _ _ _ _ _ _ _ _); cbn [fst set_shown p_step p_size]; split; reflexivity.
-Qed.
-
-Lemma on_step_never_lowers clamped st z now t s e :
-  p_step st <= p_step (fst (apply_op w sw mdr clamped (OpStep z now t s e) st)) /\
-  p_size (fst (apply_op w sw mdr clamped (OpStep z now t s e) st)) = p_size st.
-Proof.
-  cbn [apply_op]. destruct (wrap64 (z + p_pre st) <=? p_step st) eqn:E; [cbn [fst]; split; [lia | reflexivity]|].
-  apply Z.leb_gt in E. destruct (p_pausing st); [cbn [fst set_step p_step p_size]; split; [lia | reflexivity]|].
-  destruct (show_keeps clamped (set_step st (wrap64 (z + p_pre st))) now t s e) as [A B].
-  rewrite A, B. cbn [set_step p_step p_size]. split; [lia | reflexivity].
-Qed.
-
 Definition within_file (o : op) : bool :=
   match o with OpName _ | OpSize _ | OpPre _ => false | _ => true end.
 
@@ -648,9 +657,9 @@ Proof.
   intros Hk Hw. unfold st_pct.
   destruct o as [n|nm|z|z now t s e|now t s e|z|b|c]; try discriminate Hw.
   - cbn [apply_op fst p_step p_size]. lia.
-  - destruct (on_step_never_lowers true st z now t s e) as [A B]. rewrite B. apply pct_val_mono; assumption.
+  - destruct (on_step_never_lowers w sw mdr true st z now t s e) as [A B]. rewrite B. apply pct_val_mono; assumption.
   - cbn [apply_op]. destruct (p_size st =? 0) eqn:E; [cbn [fst]; lia|]. apply Z.eqb_neq in E.
-    destruct (show_keeps true (set_shown (set_step st (p_size st)) None (p_first st)) now t s e) as [A B].
+    destruct (show_keeps w sw mdr true (set_shown (set_step st (p_size st)) None (p_first st)) now t s e) as [A B].
     rewrite A, B. cbn [set_shown set_step p_step p_size]. rewrite pct_val_done by assumption.
     apply pct_val_range. exact Hk.
   - cbn [apply_op fst p_step p_size]. lia.
@@ -668,3 +677,168 @@ Proof.
 Qed.
 
 End Widths.
+
+(* ------------------------------------------------------------------------------------ *)
+(* closed statements: the assumptions about the external functions as explicit premises *)
+
+(* what is assumed about runewidth (w, sw) and the terminal (dw) *)
+Definition width_model (w : rune -> nat) (sw dw : str -> nat) : Prop :=
+  (forall a b, (dw (a ++ b) <= dw a + dw b)%nat) /\
+  (forall s, (dw s <= sw s)%nat) /\
+  (forall s, (dw s <= wsum w s)%nat) /\
+  (forall s, (dw (trim_space s) <= dw s)%nat) /\
+  (forall r, ascii_char r = true -> (w r <= 1)%nat) /\
+  (w Consts.progress_bar_full_rune <= 1)%nat /\
+  (w Consts.progress_bar_empty_rune <= 1)%nat /\
+  (dw (fmt_head Consts.progress_bar_fmt) <= 1)%nat /\
+  (dw (fmt_tail Consts.progress_bar_fmt) <= 1)%nat.
+
+(* what is assumed about binary64 arithmetic: mdr k a b = int(math.Round(k*a/b)), 0 <= k <= kmax *)
+Definition round_model (mdr : Z -> Z -> Z -> Z) (kmax : Z) : Prop :=
+  (forall k b, 0 <= k <= kmax -> b <> 0 -> mdr k 0 b = 0) /\
+  (forall k b, 0 <= k <= kmax -> b <> 0 -> mdr k b b = k) /\
+  (forall k a a' b, 0 <= k <= kmax -> 0 < b -> 0 <= a <= a' -> a' <= b -> mdr k a b <= mdr k a' b).
+
+Lemma mdr_exact_model kmax : round_model mdr_exact kmax.
+Proof.
+  split; [|split].
+  - intros k b _ Hb. apply mdr_exact_zero. exact Hb.
+  - intros k b Hk Hb. apply mdr_exact_full; [lia | exact Hb].
+  - intros k a a' b Hk Hb Ha _. apply mdr_exact_mono; lia.
+Qed.
+
+Lemma trivial_width_model : width_model (fun _ => 1%nat) (fun s => length s) (fun _ => 0%nat).
+Proof. unfold width_model. repeat split; intros; lia. Qed.
+
+(* discharge the leading non-dependent premises of H (the section hypotheses) from the context *)
+Ltac c20_feed H :=
+  repeat match type of H with
+         | ?P -> _ => let x := fresh "x" in assert (x : P) by assumption; specialize (H x); clear x
+         end.
+
+Section Closed.
+Variable w : rune -> nat.
+Variable sw dw : str -> nat.
+Variable mdr : Z -> Z -> Z -> Z.
+Variable kmax : Z.
+Hypothesis HW : width_model w sw dw.
+Hypothesis HR : round_model mdr kmax.
+
+Lemma c20_text cols count idx name fstep fsize pct total speed eta :
+  ascii pct = true -> ascii total = true -> ascii speed = true -> ascii eta = true -> cols <= kmax ->
+  exists s, progress_text w sw mdr cols count idx name fstep fsize pct total speed eta = TOk s /\
+            (Z.of_nat (length pct) <= cols -> Z.of_nat (dw s) <= cols).
+Proof.
+  destruct HW as (A1 & A2 & A3 & A4 & A5 & A6 & A7 & A8 & A9). destruct HR as (B1 & B2 & B3).
+  unfold progress_text. rewrite clamp_src_ok.
+  pose proof (text_ok w sw dw mdr kmax) as H. c20_feed H. apply H.
+Qed.
+
+Lemma c20_fits cols count idx name fstep fsize pct total speed eta s :
+  ascii pct = true -> ascii total = true -> ascii speed = true -> ascii eta = true -> cols <= kmax ->
+  5 <= cols -> (length pct <= 4)%nat ->
+  progress_text w sw mdr cols count idx name fstep fsize pct total speed eta = TOk s ->
+  Z.of_nat (dw s) <= cols.
+Proof.
+  intros Hp Ht Hs He Hk H5 H4 Heq.
+  destruct (c20_text cols count idx name fstep fsize pct total speed eta Hp Ht Hs He Hk) as [s' [E F]].
+  rewrite E in Heq. inversion Heq. subst s'. apply F. lia.
+Qed.
+
+Lemma c20_fits_sharp cols count idx name fstep fsize pct total speed eta s :
+  ascii pct = true -> ascii total = true -> ascii speed = true -> ascii eta = true -> cols <= kmax ->
+  Z.of_nat (length pct) <= cols ->
+  progress_text w sw mdr cols count idx name fstep fsize pct total speed eta = TOk s ->
+  Z.of_nat (dw s) <= cols.
+Proof.
+  intros Hp Ht Hs He Hk H4 Heq.
+  destruct (c20_text cols count idx name fstep fsize pct total speed eta Hp Ht Hs He Hk) as [s' [E F]].
+  rewrite E in Heq. inversion Heq. subst s'. apply F. exact H4.
+Qed.
+
+Lemma c20_total_text cols count idx name fstep fsize pct total speed eta :
+  ascii pct = true -> ascii total = true -> ascii speed = true -> ascii eta = true -> cols <= kmax ->
+  progress_text w sw mdr cols count idx name fstep fsize pct total speed eta <> TPanic.
+Proof.
+  intros Hp Ht Hs He Hk.
+  destruct (c20_text cols count idx name fstep fsize pct total speed eta Hp Ht Hs He Hk) as [s' [E _]].
+  rewrite E. discriminate.
+Qed.
+
+Lemma c20_total_bar fstep fsize length : length - Consts.progress_bar_brackets <= kmax ->
+  progress_bar mdr fstep fsize length <> BPanic.
+Proof.
+  intro Hk. destruct HW as (A1 & A2 & A3 & A4 & A5 & A6 & A7 & A8 & A9). destruct HR as (B1 & B2 & B3).
+  unfold progress_bar. rewrite clamp_src_ok.
+  pose proof (bar_ok w dw mdr kmax) as H. c20_feed H.
+  destruct (H fstep fsize length Hk) as [s [E _]].
+  rewrite E. discriminate.
+Qed.
+
+Lemma c20_pct fstep fsize : 100 <= kmax ->
+  0 <= pct_val mdr fstep fsize <= 100 /\
+  pct_text_cur mdr fstep fsize = dec_Z (pct_val mdr fstep fsize) ++ [37%N] /\
+  ascii (pct_text_cur mdr fstep fsize) = true /\ (length (pct_text_cur mdr fstep fsize) <= 4)%nat.
+Proof.
+  intro Hk. destruct HW as (A1 & A2 & A3 & A4 & A5 & A6 & A7 & A8 & A9). destruct HR as (B1 & B2 & B3).
+  unfold pct_text_cur. rewrite clamp_src_ok.
+  pose proof (pct_val_range w dw mdr kmax) as H1. c20_feed H1.
+  pose proof (pct_text_val w dw mdr kmax) as H2. c20_feed H2.
+  pose proof (pct_text_ok w dw mdr kmax) as H3. c20_feed H3.
+  split; [apply H1; exact Hk|]. split; [apply H2; exact Hk|]. apply H3. exact Hk.
+Qed.
+
+Lemma c20_pct_mono_step s s' fsize : 100 <= kmax -> s <= s' -> pct_val mdr s fsize <= pct_val mdr s' fsize.
+Proof.
+  destruct HW as (A1 & A2 & A3 & A4 & A5 & A6 & A7 & A8 & A9). destruct HR as (B1 & B2 & B3).
+  pose proof (pct_val_mono w dw mdr kmax) as H. c20_feed H. apply H.
+Qed.
+
+Lemma c20_run ops st : 100 <= kmax -> p_cols st <= kmax -> Forall (op_ok kmax) ops ->
+  Forall (Forall (wr_ok dw)) (snd (run_cur w sw mdr ops st)).
+Proof.
+  destruct HW as (A1 & A2 & A3 & A4 & A5 & A6 & A7 & A8 & A9). destruct HR as (B1 & B2 & B3).
+  intros Hk. unfold run_cur. rewrite clamp_src_ok.
+  pose proof (run_ok w sw dw mdr kmax) as H. c20_feed H. apply H.
+Qed.
+
+Lemma c20_run_mono ops st : 100 <= kmax -> forallb within_file ops = true ->
+  st_pct mdr st <= st_pct mdr (fst (run_cur w sw mdr ops st)).
+Proof.
+  destruct HW as (A1 & A2 & A3 & A4 & A5 & A6 & A7 & A8 & A9). destruct HR as (B1 & B2 & B3).
+  intros Hk. unfold run_cur. rewrite clamp_src_ok.
+  pose proof (run_pct_mono w sw dw mdr kmax) as H. c20_feed H. apply H.
+Qed.
+
+Lemma c20_step_never_lowers st z now t s e :
+  p_step st <= p_step (fst (run_cur w sw mdr [OpStep z now t s e] st)).
+Proof.
+  unfold run_cur. cbn [run].
+  pose proof (on_step_never_lowers w sw mdr Consts.progress_clamped st z now t s e) as [A _].
+  destruct (apply_op w sw mdr Consts.progress_clamped (OpStep z now t s e) st) as [st1 out]. exact A.
+Qed.
+
+(* every line written shows the percentage of the state it was written in, laid out for the
+   current width *)
+Lemma c20_line_shows o st k c pct text : 100 <= kmax -> p_cols st <= kmax -> op_ok kmax o ->
+  In (WLine k c pct text) (concat (snd (run_cur w sw mdr [o] st))) ->
+  c = p_cols (fst (run_cur w sw mdr [o] st)) /\
+  pct = dec_Z (st_pct mdr (fst (run_cur w sw mdr [o] st))) ++ [37%N].
+Proof.
+  destruct HW as (A1 & A2 & A3 & A4 & A5 & A6 & A7 & A8 & A9). destruct HR as (B1 & B2 & B3).
+  intros Hk Hc Ho. unfold run_cur. rewrite clamp_src_ok. cbn [run].
+  pose proof (apply_op_spec w sw dw mdr kmax) as H. c20_feed H.
+  destruct (H o st Hk Hc Ho) as [_ [_ H']].
+  destruct (apply_op w sw mdr true o st) as [st1 out]. cbn [fst snd concat] in *. rewrite app_nil_r.
+  intros Hin. destruct (H' k c pct text Hin) as [E1 E2]. split; [exact E1|].
+  rewrite E2. unfold st_pct.
+  pose proof (pct_text_val w dw mdr kmax) as H2. c20_feed H2. apply H2. exact Hk.
+Qed.
+
+End Closed.
+
+(* the defect before the fix, on the exact arithmetic: step beyond the size, negative size *)
+Lemma unfixed_panics :
+  progress_bar_unfixed 250 100 24 = BPanic /\ progress_bar_unfixed 3 (-5) 24 = BPanic /\
+  pct_text mdr_exact false 250 100 = [50; 53; 48; 37]%N.
+Proof. vm_compute. repeat split. Qed.
